@@ -407,6 +407,45 @@ pub fn c06_cases(rng: &mut Rng, tier: &str) -> (Vec<Case>, bool) {
             }
         }
     }
+    // parentheses nested to just below / at / above the cap in EVERY expression position of every statement kind: both walkers
+    // count the same levels (an analysis error on such a straight-line line means the execution fails too, and vice versa)
+    for depth in [44usize, 45, 46, 47, 48, 49] {
+        let (po, pc) = ("(".repeat(depth), ")".repeat(depth));
+        for tmpl in ["A({P}1{Q}) = 5", "X = {P}1{Q}", "PRINT {P}1{Q}", "DIM A({P}1{Q})", "LET A({P}1{Q}) = 1", "FOR I = {P}1{Q} TO 2", "FOR I = 1 TO {P}2{Q}", "FOR I = 1 TO 2 STEP {P}1{Q}", "A(1, {P}1{Q}) = 2",
+            "A$({P}1{Q}) = \"s\"", "PRINT A({P}1{Q})", "X = ABS({P}1{Q})", "PRINT 1; {P}2{Q}", "X = 1 + {P}1{Q}", "READ A({P}1{Q})", "INPUT A({P}1{Q})"] {
+            let text = format!("10 {}", tmpl.replace("{P}", &po).replace("{Q}", &pc));
+            let mut w = Walk::new(false, false);
+            w.op(&analyze_op(&text));
+            let ai = w.last();
+            let a = w.ops.len();
+            w.start(&text);
+            w.start("RUN");
+            let mut nr = 0;
+            w.drive(&["1".to_string()], &mut nr, 30, false);
+            w.state();
+            let b = w.last();
+            let check = if tmpl.starts_with("INPUT") { format!("agree-sound {} {}-{}", ai, a, b) } else { format!("agree-straight {} {}-{}", ai, a, b) };
+            cases.push(Case { ops: w.ops, checks: vec![check], tag: "nesting-in-every-position".into(), nontrivial: true, show: format!("{} with {} parentheses", tmpl, depth) });
+        }
+    }
+    // a function body that calls a function defined further down (known finding KF-FORWARD-FN when the later definition has
+    // another parameter kind or count)
+    for later in ["DEF G(X$) = 1", "DEF G(Y) = Y + 1", "DEF G(X, Y) = 1", "DEF G$(X) = \"s\""] {
+        let text = format!("10 DEF F(X) = G(X)\n20 {}\n30 PRINT F(1)", later);
+        let mut w = Walk::new(false, false);
+        w.op(&analyze_op(&text));
+        let ai = w.last();
+        let a0 = w.ops.len();
+        for l in text.split('\n') {
+            w.start(l);
+        }
+        w.start("RUN");
+        let mut nr = 0;
+        w.drive(&[], &mut nr, 30, false);
+        w.state();
+        let b = w.last();
+        cases.push(Case { ops: w.ops, checks: vec![format!("agree-sound {} {}-{}", ai, a0, b)], tag: "forward-function".into(), nontrivial: true, show: text.replace('\n', " | ") });
+    }
     // IF with zero to three ELSE clauses (one more than the grammar has), for a true and a false condition, with clauses that
     // fall through, jump, or swallow the rest of the line
     for cond in ["X", "1", "X = 0"] {
